@@ -16,8 +16,10 @@ RULE = ("a base point (THDM mass basis / MSSM on-shell) and one coincidence targ
         "rounding floor of its own terms) for at least one component; distinct = distinct (base point, target).")
 ASSUMPTIONS = [
     "finiteness is required of every component on every accepted model of every path",
-    "continuity: on admissible paths all inner values lie within 1 % of max(|a(-1e-3)|, |a(+1e-3)|) of the chord "
-    "through the values at d = -1e-3 and d = +1e-3",
+    "continuity: on admissible paths all inner values lie within 1 % of the component's magnitude of the chord "
+    "through the values at d = -1e-3 and d = +1e-3; the magnitude of a component that is a cancelling sum is the sum of "
+    "|terms| it is built from (a kink of min(...) in the documented leading-log scale is continuous, but would be "
+    "misread as a jump if measured against a sum that cancels to 2 %)",
     "a component whose magnitude is below 1e-9 of the sum of |terms| it is built from (exact SM limit, rounding "
     "residue) is not judged for continuity",
     "paths on which the constructor rejects a model (tachyon, mh > mH) are discarded and counted",
@@ -34,13 +36,30 @@ MSSM_COMP = ["amu1L", "amu1L_nontb", "amu1LChi0", "amu1LChipm", "amu2L", "amu2L_
              "delta_mu", "delta_tau", "delta_bottom", "tan_beta_cor"]
 
 
-def judge(values, floors, comps):
-    """values: dict d -> reply-dict; returns (problems, n_admissible)"""
+def judge(values, floors, comps, norms=None):
+    """values: dict d -> reply-dict; norms: component -> sum of |terms| (cancellation-safe magnitude);
+    returns (problems, n_admissible)"""
+    norms = norms or {}
     probs = []
     nadm = 0
     lo, hi = values[-1e-3], values[1e-3]
+
+    def signed_steady(c):
+        a0, a1 = lo.get(c), hi.get(c)
+        return a0 is not None and a1 is not None and abs(a1 - a0) <= 0.2 * max(abs(a0), abs(a1))
+
     for c in comps:
+        # the uncertainties are sums of absolute values: they have (continuous) kinks where a_mu(1L) or a_mu(2L)
+        # changes sign, so they are only judged on paths on which those do not move by more than 20 % themselves
+        if c.startswith("unc") and not (signed_steady("amu1L") and signed_steady("amu2L")):
+            continue
         vs = {d: r.get(c) for d, r in values.items()}
+        if any(v is None and r.get(c + ".exc") in ("EPhysicalProblem", "EInvalidInput")
+               for (d, v), r in zip(vs.items(), values.values())):
+            # the function itself rejects the model with a documented error class (e.g. the spectrum without
+            # tan(beta) resummation is tachyonic): a reported problem, not a silent non-finite number
+            label("component-rejects-model:" + c)
+            continue
         nonfin = [(d, v) for d, v in vs.items() if v is None or v != v or abs(v) == math.inf]
         if nonfin:
             probs.append({"component": c, "what": "not finite", "at": nonfin[:4]})
@@ -49,6 +68,8 @@ def judge(values, floors, comps):
         mag = max(abs(a0), abs(a1))
         if mag <= floors.get(c, 0.0) or mag == 0.0:
             continue
+        # a component that is a cancelling sum is measured against the size of its terms (DESIGN section 3)
+        mag = max(mag, norms.get(c, 0.0))
         if abs(a1 - a0) > 0.2 * mag:
             continue
         nadm += 1
@@ -177,7 +198,10 @@ def prop_thdm(case):
     for c, (pre, names) in THDM_NORM.items():
         floors[c] = 1e-9 * max(sum(abs(r[pre + n]) for n in names) for r in values.values())
     floors["amu2L"] = floors["amu2LF"] + floors["amu2LB"]
-    probs, nadm = judge(values, floors, THDM_COMP)
+    norms = {c: 1e9 * f for c, f in floors.items()}
+    norms["unc0L"] = norms["amu1L"] + norms["amu2L"]
+    norms["unc1L"] = norms["unc2L"] = norms["amu2L"] + 0.02 * norms["amu1L"]
+    probs, nadm = judge(values, floors, THDM_COMP, norms)
     cls = thdm_class(case, m0)
     label("class:" + cls)
     if nadm == 0:
@@ -252,7 +276,14 @@ def prop_mssm(case):
     s1 = max((mssm.sum_abs_1l(r) or (0.0,))[0] for r in values.values())
     floors = {c: 1e-9 * s1 * (1.0 if c.startswith("amu1L") or c == "unc0L" else 0.1) for c in MSSM_COMP
               if c.startswith(("amu", "unc"))}
-    probs, nadm = judge(values, floors, MSSM_COMP)
+    rs = list(values.values())
+    n2fs = max(sum(abs(r[k]) for k in ("amu2LWHnu", "amu2LWHmuL", "amu2LBHmuL", "amu2LBHmuR", "amu2LBmuLmuR")) for r in rs)
+    n1ap = max(sum(abs(r[k]) for k in ("amu1LWHnu", "amu1LWHmuL", "amu1LBHmuL", "amu1LBHmuR", "amu1LBmuLmuR")) for r in rs)
+    n2 = n2fs + max(sum(abs(r[k]) for k in ("amu2LChipmPhotonic", "amu2LChi0Photonic", "amu2LaSferm", "amu2LaCha")) for r in rs)
+    norms = {"amu1L": s1, "amu1L_nontb": s1, "amu1LChi0": s1, "amu1LChipm": s1, "unc0L": s1,
+             "amu1Lapprox": n1ap, "amu2LFSfapprox": n2fs, "amu2L": n2, "amu2L_nontb": n2, "unc1L": n2, "unc2L": n2,
+             "amu2LChipmPhotonic": 0.1 * s1, "amu2LChi0Photonic": 0.1 * s1}
+    probs, nadm = judge(values, floors, MSSM_COMP, norms)
     label("class:mssm:" + tgt["kind"])
     if nadm == 0:
         discard("no-admissible-component")
@@ -264,7 +295,7 @@ def prop_mssm(case):
 
 def known_match(entry, case, fail):
     m = entry.get("match", {})
-    if "coincidence" in m and fail.detail.get("coincidence") == m["coincidence"]:
+    if fail.detail.get("coincidence") in ([m["coincidence"]] if "coincidence" in m else m.get("coincidences", [])):
         comps = set(m.get("components", []))
         return all(q.get("component") in comps for q in fail.detail.get("problems", []))
     return False
